@@ -69,6 +69,9 @@ def gen_labels(rng: random.Random, names: List[str], n: int) -> Dict[str, Any]:
 
 def gen_c09_spec(rng: random.Random) -> Dict[str, Any]:
     names = [f"l{i}" for i in range(6)]
+    if rng.random() < 0.3:
+        # user labels that merely look like the library's own bookkeeping labels (tracing headers, private tags)
+        names = names[:3] + ["_tenant", "__s", "X-Taskiq-origin", "x-request-id", "_retries_seen", "X-Taskiq-requeue-at"]
     declared = gen_labels(rng, names, rng.randint(0, 4))
     use_retry = rng.random() < 0.6
     shared = rng.random() < 0.2
